@@ -36,6 +36,13 @@ fn main() {
         println!("sanitizer-workload {} {} {:016x}", args[1], obs, sum);
         return;
     }
+    if prop == "c10-order" {
+        // c10-order <seed> <0|1>: see props::c10::order_probe
+        let seed: u64 = args.get(1).and_then(|s| s.parse().ok()).unwrap_or(0);
+        let f32_first = args.get(2).map(|s| s == "1").unwrap_or(false);
+        println!("c10-order {:016x}", vpcheck::props::c10::order_probe(seed, f32_first));
+        return;
+    }
     if prop == "worker" {
         // worker <prop> <stream> <tier> <seed> <start> <step> <end>
         if args.len() < 8 {
